@@ -99,6 +99,7 @@ def run(case, ctx):
         if not have:
             ctx.note("permutations_unverified:seam_missing")
         det = ctx.call("C10:ctor", nm.NNDVI, **cfg)
+        reused = NNSpacePartitioner(k)     # one object built again and again: every build must stand on its own
         ref = None
         drifts = nodrift_interesting = 0
         for i, (rows, seed) in enumerate(case["events"]):
@@ -117,7 +118,7 @@ def run(case, ctx):
             ctx.call("C10:update", det.update, X.copy())
             ctx.sim_time += 1
             # ---- the partitioner on exactly these two samples
-            p = NNSpacePartitioner(k)
+            p = NNSpacePartitioner(k) if i % 2 else reused
             ctx.call("C10:nnsp:build", p.build, ref.copy(), X.copy())
             # the partitioner's D may list the de-duplicated union in any order: everything below is indexed like p.D
             Dp = np.asarray(p.D, dtype=float)
